@@ -7,13 +7,13 @@ Every witness was replayed on the real code (see `corpus/C03/witnesses.sexp` and
 namespace LokiModel.C03
 
 def vsrc (text : Lines) (l0 l1 : Nat) : Option Src := some ⟨.valid, text, l0, l1⟩
-def leaf (k : Kind) (lbl : Nat) (text : Lines) (l : Nat) : Node := .mk ⟨k, lbl, false, false, none⟩ (vsrc text l l) [] []
+def leaf (k : Kind) (lbl : Nat) (text : Lines) (l : Nat) : Node := .mk ⟨k, lbl, false, false, none, true⟩ (vsrc text l l) [] []
 
-/-! ### emptied-node-stays-valid: `do i = 1, n / a(i) = 1.0 / end do`, mapper `{a(i) = 1.0: None}` -/
+/-! ### emptied-node-stays-valid (repaired): `do i = 1, n / a(i) = 1.0 / end do`, mapper `{a(i) = 1.0: None}` -/
 
 def wAssign : Node := leaf .assign 2 ["    a(i) = 1.0"] 7
-def wLoop : Node := .mk ⟨.loop, 1, false, false, none⟩ (vsrc ["  do i = 1, n", "    a(i) = 1.0", "  end do"] 6 8) [wAssign] []
-def wBody : Node := .mk ⟨.section, 0, false, false, none⟩
+def wLoop : Node := .mk ⟨.loop, 1, false, false, none, true⟩ (vsrc ["  do i = 1, n", "    a(i) = 1.0", "  end do"] 6 8) [wAssign] []
+def wBody : Node := .mk ⟨.section, 0, false, false, none, true⟩
   (vsrc ["  do i = 1, n", "    a(i) = 1.0", "  end do", "  a(1) = 2.0"] 6 9) [wLoop, leaf .assign 3 ["  a(1) = 2.0"] 9] []
 def wMap : Mapper := [(wAssign, .drop)]
 def wRender : Render := fun _ => {}
@@ -21,35 +21,19 @@ def wRender : Render := fun _ => {}
 /-- the unmodified witness tiles and is all valid (the hypotheses of the positive theorems are satisfiable) -/
 example : allValid wBody = true ∧ tilesB wRender false wBody = true := by decide
 
-/-- after the removal the loop has no body, is still flagged `VALID`, … -/
-theorem C03_emptied_witness_flags :
-    (visitRoot false wMap wBody).body.map (fun n => (n.status, n.body.length)) = [(some .valid, 0), (some .valid, 0)] := by decide
+/-- regression statement for the repaired `emptied-node-stays-valid`: after the removal the loop is flagged `INVALID_CHILDREN` … -/
+theorem C03_emptied_repaired_flags :
+    (visitRoot false wMap wBody).body.map (fun n => (n.status, n.body.length)) = [(some .ichildren, 0), (some .valid, 0)] := by decide
 
-/-- … and the conservative output still shows the removed statement -/
-theorem C03_emptied_witness_output :
-    cgen wRender 0 false (visitRoot false wMap wBody) = .some ["  do i = 1, n", "    a(i) = 1.0", "  end do", "  a(1) = 2.0"] := by
+/-- … and the removed statement is gone from the conservative output, the loop skeleton still verbatim -/
+theorem C03_emptied_repaired_output :
+    cgen wRender 0 false (visitRoot false wMap wBody) = .some ["  do i = 1, n", "  end do", "  a(1) = 2.0"] := by
   decide
 
-/-- `valid_implies_untouched` without the class hypothesis -/
-def C03_valid_implies_untouched_full : Prop :=
-  ∀ (rs : Bool) (m : Mapper) (ns : List Node) (n' : Node),
-    n' ∈ preorderL (visitL rs m ns) → n'.status = some .valid → (n'.info.kind = .scoped → rs = true) →
-    n' ∈ preorderL ns ∨ n' ∈ preorderL (mapperValues m)
-
-theorem C03_valid_implies_untouched_full_false : ¬ C03_valid_implies_untouched_full := by
-  intro h
-  have := h false wMap [wBody] (.mk ⟨.loop, 1, false, false, none⟩ (vsrc ["  do i = 1, n", "    a(i) = 1.0", "  end do"] 6 8) [] [])
-    (by decide) (by decide) (by decide)
-  revert this
-  decide
-
-/-- the class predicate holds on the witness -/
-example : knownEmptiedLB false wMap [wBody] = true := by decide
-
-/-! ### elseif-flag-leaks: `if / else if / else if / end if` re-flagged by the identity transformer → `TypeError` -/
+/-! ### elseif-flag-leaks (repaired): `if / else if / else if / end if` re-flagged by the identity transformer -/
 
 def cnd (lbl : Nat) (ei : Bool) (text : Lines) (l0 l1 : Nat) (body els : List Node) : Node :=
-  .mk ⟨.cond, lbl, false, ei, none⟩ (vsrc text l0 l1) body els
+  .mk ⟨.cond, lbl, false, ei, none, true⟩ (vsrc text l0 l1) body els
 
 def wChain : Node :=
   cnd 1 true ["if (x > 0.) then", "  y = 1.", "else if (x > 1.) then", "  y = 2.", "else if (x > 2.) then", "  y = 3.", "end if"] 1 7
@@ -58,7 +42,12 @@ def wChain : Node :=
       [leaf .assign 4 ["  y = 2."] 4]
       [cnd 5 false ["else if (x > 2.) then", "  y = 3.", "end if"] 5 7 [leaf .assign 6 ["  y = 3."] 6] []]]
 
-theorem C03_elseif_chain_typeerror : cgen wRender 0 false (visitRoot false [] wChain) = .err "typeerror" := by decide
+/-- regression statement for the repaired `elseif-flag-leaks`: the chain tiles and is printed verbatim (it raised `TypeError`) -/
+theorem C03_elseif_chain_repaired :
+    tilesB wRender false wChain = true ∧
+    cgen wRender 0 false (visitRoot false [] wChain) =
+      .some ["if (x > 0.) then", "  y = 1.", "else if (x > 1.) then", "  y = 2.", "else if (x > 2.) then", "  y = 3.", "end if"] := by
+  decide
 
 /-- a single `else if` is fine (and tiles) -/
 example :
